@@ -5,6 +5,7 @@ package merge
 
 import (
 	"bytes"
+	"fmt"
 	"sort"
 
 	"github.com/wrgl/wrgl/pkg/diff"
@@ -61,7 +62,13 @@ func (r *RowResolver) tryResolve(m *Merge) (err error) {
 	layersWhereRowIsRemoved := []int{}
 	for i, sum := range m.Others {
 		if sum != nil {
-			uniqSums[string(sum)] = i
+			// layers with equal checksums hold the same row only if they
+			// also have the same column layout
+			key := string(sum)
+			if j, ok := uniqSums[key]; ok && !r.cd.LayersHaveSameLayout(i, j) {
+				key = fmt.Sprintf("%s/%d", key, i)
+			}
+			uniqSums[key] = i
 		} else {
 			layersWhereRowIsRemoved = append(layersWhereRowIsRemoved, i)
 		}
@@ -159,10 +166,10 @@ func (r *RowResolver) tryResolve(m *Merge) (err error) {
 func (r *RowResolver) Resolve(m *Merge) (err error) {
 	nonNils := 0
 	unchanges := 0
-	for _, sum := range m.Others {
+	for i, sum := range m.Others {
 		if sum != nil {
 			nonNils++
-			if bytes.Equal(sum, m.Base) {
+			if bytes.Equal(sum, m.Base) && r.cd.LayerHasBaseLayout(i) {
 				unchanges++
 			}
 		}
